@@ -11,6 +11,7 @@ from ..dimscan import scan
 from ..index import AnalysisError, FuncInfo, PropInfo
 from ..interp import Interp
 from ..report import Result
+from ..values import D, dim_collapse
 
 EXPLANATION = (
     "Sibling / interface conformance of the ball properties: API-1 every ball property defined in a concrete class is "
@@ -82,8 +83,16 @@ def run(index, tier="quick", seed=0) -> Result:
             ball = name[: -len("_radius")]
             npairs += 1
             k = f"{cname}.{name}"
-            rets = [n for n in ast.walk(p.getter.node) if isinstance(n, ast.Return) and n.value is not None]
-            ok = len(rets) == 1 and ast.unparse(rets[0].value) == f"self.{ball}.radius"
+            # resolve on a class that implements the ball: the value must be ._radius of the object that the
+            # same-named ball getter returned
+            host = {"Shape2D": "Circle", "Shape3D": "Sphere"}.get(cname, cname)
+            it0 = Interp(index)
+            r0 = it0.run_entry(p.getter, index.cls(host))
+            oids = {e.value.obj.oid for e in r0["events"] if e.type == "leave" and e.role == ("getter", ball)
+                    and e.value is not None and e.value.obj is not None and len(e.path) == 1}
+            val = r0["result"]
+            ok = bool(oids) and val is not None and any((o, "_radius") in val.deps for o in oids) \
+                and dim_collapse(val.dim) == D(1)
             if ok:
                 res.ok("API-2", k)
             else:
